@@ -5,7 +5,7 @@ checks against that worktree (PV_REPO), without touching /repo. Prints a JSON su
 import sys, os, json, subprocess, shutil, re, time, hashlib
 
 def sh(cmd, **kw):
-    return subprocess.run(cmd, shell=True, stdout=subprocess.PIPE, stderr=subprocess.STDOUT, text=True, **kw)
+    return subprocess.run(cmd, shell=True, stdout=subprocess.PIPE, stderr=subprocess.STDOUT, text=True, errors="replace", **kw)
 
 ROOT = os.path.dirname(os.path.dirname(os.path.abspath(__file__)))     # the /verif this script belongs to (or a snapshot of it)
 
